@@ -37,7 +37,7 @@ from collada import scene
 from collada.common import E, tagger, tag
 from collada.common import DaeError, DaeIncompleteError, DaeBrokenRefError, \
     DaeMalformedError, DaeSaveValidationError
-from collada.util import IndexedList
+from collada.util import IndexedList, _syncChildren
 from collada.xmlutil import createElementTree
 from collada.xmlutil import etree as ElementTree
 from collada.xmlutil import writeXML
@@ -519,12 +519,7 @@ class Collada(object):
 
             for o in arr:
                 o.save()
-                if o.xmlnode not in node:
-                    node.append(o.xmlnode)
-            xmlnodes = [o.xmlnode for o in arr]
-            for n in list(node):
-                if n not in xmlnodes:
-                    node.remove(n)
+            _syncChildren(node, [o.xmlnode for o in arr])
 
         scenenode = self.xmlnode.find(self.tag('scene'))
         scenenode.clear()
